@@ -1,13 +1,17 @@
 package main
 
 import (
+	"bytes"
 	"context"
+	"encoding/binary"
 	"errors"
 	"fmt"
 	"io"
 	"runtime/debug"
+	"sort"
 	"strings"
 	"sync"
+	"sync/atomic"
 	"time"
 
 	"github.com/ethereum/go-ethereum/crypto"
@@ -40,6 +44,8 @@ type scenario struct {
 	// slowImporter: the stream handler starts only when the whole catch-up is queued (wantMarkers nil markers expected)
 	slowImporter bool
 	wantMarkers  int
+	// flood: blocks served by the "flood" peer at heights A+1.. (well-formed, numbered in sequence, unknown ancestry)
+	flood []item
 }
 
 func (e *env) newScenario(a, h, r int, swap bool) *scenario {
@@ -99,6 +105,7 @@ type fakePeer struct {
 	log      *fetchLog
 	annID    thor.Bytes32 // announced in Status
 	annScore uint64
+	onFetch  func(items int)                      // called after every GetBlocksFromNumber answer
 	byID     func(id thor.Bytes32) []rlp.RawValue // GetBlockByID answer (nil: nothing)
 	onCall   func(code uint64, env pipe.Envelope)
 }
@@ -189,6 +196,17 @@ func junkRec(kind string, num int) trace.Ev {
 
 // answer mirrors PeerAnswer of Sync.tla. It returns the Fetch event and the wire action.
 func (p *fakePeer) answer(n int) (ev trace.Ev, items []item, wire string) {
+	if p.f.kind == "flood" {
+		// batches of 1024 well-formed, correctly numbered blocks nobody can import (their ancestry is unknown)
+		for h := n; h-p.sc.A-1 < len(p.sc.flood) && len(items) < proto.MaxBlocksFromNumber && h > p.sc.A; h++ {
+			items = append(items, p.sc.flood[h-p.sc.A-1])
+		}
+		recs := []trace.Ev{}
+		for _, it := range items {
+			recs = append(recs, it.rec)
+		}
+		return trace.Ev{"e": "Fetch", "from": n, "t": "blocks", "bad": len(items) > 0, "bs": recs}, items, "blocks"
+	}
 	hon := p.honestItems(n)
 	f := p.f
 	hit := f.kind != "none" && f.height >= n && f.height < n+len(hon)
@@ -307,6 +325,9 @@ func (p *fakePeer) run() {
 					raws = append(raws, it.raw)
 				}
 				reply(raws)
+				if p.onFetch != nil {
+					p.onFetch(len(raws))
+				}
 			}
 		case proto.MsgGetBlockByID:
 			var id thor.Bytes32
@@ -363,29 +384,43 @@ func errClass(err error) string {
 }
 
 type dlResult struct {
-	Label    string   `json:"label"`
-	Peer     string   `json:"peer"`
-	Fault    string   `json:"fault"`
-	Height   int      `json:"height"`
-	Batch    int      `json:"batch"`
-	Status   string   `json:"status"`
-	Err      string   `json:"err"`
-	Imported int      `json:"imported"`
-	Fetches  int      `json:"fetches"`
-	Prefers  bool     `json:"prefers"`
-	Conv     bool     `json:"converged"`
-	Dropped  bool     `json:"dropped"`
-	DigestOK bool     `json:"digestOK"`
-	Holes    bool     `json:"holes"` // imported set is not a prefix of the remote chain
-	Foreign  []string `json:"foreign,omitempty"`
-	Panic    string   `json:"panic,omitempty"`
-	Markers  int      `json:"nilMarkersQueued"` // slow-importer cases: nil throttle markers in the queue (-1: not measured)
+	Label     string   `json:"label"`
+	Peer      string   `json:"peer"`
+	Fault     string   `json:"fault"`
+	Height    int      `json:"height"`
+	Batch     int      `json:"batch"`
+	Status    string   `json:"status"`
+	Err       string   `json:"err"`
+	Imported  int      `json:"imported"`
+	Fetches   int      `json:"fetches"`
+	Prefers   bool     `json:"prefers"`
+	Conv      bool     `json:"converged"`
+	Dropped   bool     `json:"dropped"`
+	DigestOK  bool     `json:"digestOK"`
+	Holes     bool     `json:"holes"` // imported set is not a prefix of the remote chain
+	Foreign   []string `json:"foreign,omitempty"`
+	Panic     string   `json:"panic,omitempty"`
+	ElapsedMs int      `json:"elapsedMs"`        // wall time of the download call (not part of the trace)
+	Markers   int      `json:"nilMarkersQueued"` // slow-importer cases: nil throttle markers in the queue (-1: not measured)
 }
 
 // runDownload executes the real download of a fresh local node against the peer and emits BStart..BEnd.
 func (e *env) runDownload(sc *scenario, peer string, f fault, batch int, remote *stack, seq int) dlResult {
+	return e.runDownloadN(sc, peer, f, batch, remote, seq, 0)
+}
+
+// hangBound: how long download may take to return after the scripted peer is done and the handler has failed.
+const hangBound = 20 * time.Second
+
+func (e *env) runDownloadN(sc *scenario, peer string, f fault, batch int, remote *stack, seq, attempt int) dlResult {
 	local := e.open(sc.template.Clone(), false, false)
-	defer local.close()
+	closeLocal := true
+	defer func() {
+		if closeLocal {
+			local.close()
+		}
+	}()
+	var fakeDone atomic.Bool
 	le, re := pipe.New()
 	flog := &fetchLog{}
 	remoteDone := make(chan struct{})
@@ -447,10 +482,20 @@ func (e *env) runDownload(sc *scenario, peer string, f fault, batch int, remote 
 	} else {
 		fp := &fakePeer{e: e, end: re, sc: sc, batch: batch, f: f, log: flog,
 			annID: sc.remote[sc.R].Header().ID(), annScore: sc.remote[sc.R].Header().TotalScore()}
+		fp.onFetch = func(n int) {
+			if n == 0 {
+				fakeDone.Store(true)
+			}
+		}
 		go func() { fp.run(); close(remoteDone) }()
 	}
 
 	ctx, cancel := context.WithTimeout(context.Background(), 60*time.Second)
+	if f.kind == "flood" {
+		// as Communicator.Sync does: the context ends with the process only; nothing may rely on a deadline
+		cancel()
+		ctx, cancel = context.WithCancel(context.Background())
+	}
 	var panicText string
 	markers := -1
 	handler := func(hctx context.Context, stream <-chan *block.Block) (herr error) {
@@ -464,6 +509,12 @@ func (e *env) runDownload(sc *scenario, peer string, f fault, batch int, remote 
 			// an importer that starts late: the decoder queues the whole catch-up first, so the throttle rule of
 			// decodeAndWarmupBatches (more than 10% of the channel queued, block >= 4 KB) emits its nil markers
 			want, last, stable := sc.R-sc.A, -1, 0
+			if f.kind == "flood" {
+				want = cap(stream) // the channel is full, the decoder blocks on it, the fetcher has got everything
+				for i := 0; i < 500 && !fakeDone.Load(); i++ {
+					time.Sleep(10 * time.Millisecond)
+				}
+			}
 			for stable < 300 && len(stream) < want+sc.wantMarkers { // gives up after 3 s without progress
 				if n := len(stream); n == last {
 					stable++
@@ -476,7 +527,41 @@ func (e *env) runDownload(sc *scenario, peer string, f fault, batch int, remote 
 		}
 		return local.node.VerifHandleBlockStream(hctx, stream)
 	}
-	served, err := comm.VerifDownload(ctx, local.repo, le, uint32(sc.H), handler)
+	type dlOut struct {
+		served <-chan error
+		err    error
+	}
+	outCh := make(chan dlOut, 1)
+	t0 := time.Now()
+	go func() {
+		sv, derr := comm.VerifDownload(ctx, local.repo, le, uint32(sc.H), handler)
+		outCh <- dlOut{sv, derr}
+	}()
+	var served <-chan error
+	var err error
+	if f.kind == "flood" {
+		// hostile input must be harmless: once the peer has delivered everything and the handler has refused the
+		// first block, download has to come back (normally within a fraction of a second)
+		select {
+		case o := <-outCh:
+			served, err = o.served, o.err
+		case <-time.After(hangBound):
+			cancel() // releases whatever still listens to the outer context
+			le.Close()
+			if attempt == 0 {
+				return e.runDownloadN(sc, peer, f, batch, remote, seq, 1) // rule out load: both attempts must hang
+			}
+			res := dlResult{Label: sc.label, Peer: peer, Fault: f.kind, Height: f.height, Batch: batch, Status: "hang",
+				Err: fmt.Sprintf("download did not return within %v after the handler error (two attempts)", hangBound), Markers: -1}
+			closeLocal = false // goroutines of the wedged download still use the node
+			e.emitDownload(sc, peer, f, batch, flog, res, []string{}, e.name(local.best().ID()))
+			return res
+		}
+	} else {
+		o := <-outCh
+		served, err = o.served, o.err
+	}
+	elapsed := time.Since(t0)
 	cancel()
 	le.Close()
 	serveErr := <-served
@@ -527,10 +612,19 @@ func (e *env) runDownload(sc *scenario, peer string, f fault, batch int, remote 
 	res.Fetches = len(flog.evs)
 	flog.mu.Unlock()
 
+	res.ElapsedMs = int(elapsed / time.Millisecond)
+	e.emitDownload(sc, peer, f, batch, flog, res, imported, e.name(bestID))
+	return res
+}
+
+func (e *env) emitDownload(sc *scenario, peer string, f fault, batch int, flog *fetchLog, res dlResult, imported []string, best string) {
 	// trace
 	sched := "free"
 	if sc.R-sc.A > 40 {
 		sched = "eager" // see Trace_Sync.tla: one canonical interleaving of the silent steps for long chains
+	}
+	if f.kind == "flood" {
+		sched = "late" // the importer starts when fetcher and decoder have come to rest
 	}
 	locals := []trace.Ev{}
 	for _, b := range sc.local {
@@ -539,11 +633,12 @@ func (e *env) runDownload(sc *scenario, peer string, f fault, batch int, remote 
 	evs := []trace.Ev{{"e": "BStart", "case": fmt.Sprintf("%s/%s/%s@%d/b%d", sc.label, peer, f.kind, f.height, batch),
 		"local": locals, "best": e.name(sc.local[sc.H].Header().ID()), "anc": sc.A, "sched": sched,
 		"honest": peer == "honest", "rhead": e.rec(sc.remote[sc.R], "ok", sc.rk)}}
+	flog.mu.Lock()
 	evs = append(evs, flog.evs...)
-	evs = append(evs, trace.Ev{"e": "BEnd", "status": res.Status, "imported": imported, "best": e.name(bestID),
+	flog.mu.Unlock()
+	evs = append(evs, trace.Ev{"e": "BEnd", "status": res.Status, "imported": imported, "best": best,
 		"dropped": res.Dropped, "digestOK": res.DigestOK, "err": res.Err})
 	e.emit(evs...)
-	return res
 }
 
 // runDownloads enumerates the scenarios and, per scenario, every fault kind at every stream position.
@@ -680,7 +775,69 @@ func (e *env) bigCases(deep bool) []dlResult {
 		}
 	}
 	run2(2, 4, long, "throttle-A2-H4-R305", 5) // 5 KB -> 1 marker, 5 KB -> 1, 9 KB -> 3
+
+	// handler error with a full pipeline: 4 batches of 1024 decodable, correctly numbered blocks of unknown ancestry; the
+	// (late) importer refuses the first one while 2048 blocks are queued and the decoder is blocked on the channel
+	fsc := e.newScenario(1, 2, 3, false)
+	fsc.label = "flood-A1-H2"
+	fsc.slowImporter = true
+	fakeID := func(n int) (id thor.Bytes32) {
+		binary.BigEndian.PutUint32(id[:], uint32(n))
+		id[31] = 0xf1
+		return
+	}
+	for k := 0; k < 4*proto.MaxBlocksFromNumber; k++ {
+		n := fsc.A + 1 + k
+		b := new(block.Builder).ParentID(fakeID(n - 1)).Timestamp(uint64(n)).GasLimit(10_000_000).Build()
+		parent := fmt.Sprintf("f%d", n-1)
+		fsc.flood = append(fsc.flood, item{rawOf(b), trace.Ev{"id": fmt.Sprintf("f%d", n), "num": n, "parent": parent,
+			"kind": "ok", "score": 0, "ord": 0}})
+	}
+	out = append(out, e.runDownload(fsc, "scripted", fault{"flood", fsc.A + 1, 0}, proto.MaxBlocksFromNumber, nil, 9300))
+
+	// forks that tie exactly on total score: the smaller id wins (Header.BetterThan); both id orders
+	for i, tsc := range e.tieScenarios(4) {
+		rem := e.open(kvrec.New(), true, false)
+		rem.importAll(tsc.remote[1:])
+		rem.comm = comm.New(rem.repo, nil)
+		out = append(out, e.runDownload(tsc, "honest", fault{kind: "none"}, 0, rem, 9400+i))
+		rem.comm = nil
+		rem.close()
+	}
 	return out
+}
+
+// tieScenarios: local and remote hold sibling blocks (same parent trunk[a], same signer and slot, another transaction)
+// with exactly the same total score; [0]: the remote id is the smaller one (the fork choice prefers the peer),
+// [1]: the local id is the smaller one (the node keeps its own head).
+func (e *env) tieScenarios(a int) []*scenario {
+	e.trunkTo(a)
+	var sib []*block.Block
+	for k := 0; k < 5; k++ {
+		sib = append(sib, e.dataBlocks(e.trunk[a], []int{8 + k}, uint64(7_300_000+100*a+k))[0])
+	}
+	sort.Slice(sib, func(i, j int) bool {
+		return bytes.Compare(sib[i].Header().ID().Bytes(), sib[j].Header().ID().Bytes()) < 0
+	})
+	mk := func(local, remote *block.Block, label string) *scenario {
+		if local.Header().TotalScore() != remote.Header().TotalScore() || local.Header().ID() == remote.Header().ID() {
+			fail("tie scenario: scores %d / %d do not tie", local.Header().TotalScore(), remote.Header().TotalScore())
+		}
+		sc := &scenario{A: a, H: a + 1, R: a + 1, refDig: map[int]string{}, label: label}
+		sc.local = append(append([]*block.Block{}, e.trunk[:a+1]...), local)
+		sc.remote = append(append([]*block.Block{}, e.trunk[:a+1]...), remote)
+		sc.xchain = e.branch('x', a, 1)
+		sc.rk = newRanker(sc.local, sc.remote, sc.xchain)
+		tpl := e.open(kvrec.New(), true, false)
+		tpl.importAll(sc.local[1:])
+		sc.template = tpl.kv
+		tpl.close()
+		return sc
+	}
+	return []*scenario{
+		mk(sib[2], sib[0], fmt.Sprintf("tie-remote-smaller-id-A%d", a)),
+		mk(sib[2], sib[4], fmt.Sprintf("tie-local-smaller-id-A%d", a)),
+	}
 }
 
 // runStreams feeds the block stream handler (node.handleBlockStream via its hook) hand-made streams: the remote-only
